@@ -275,6 +275,52 @@ impl Check for C15 {
                 p
             }));
         }
+        // the smallest and the most decorated legal form of every reply (empty texts and containers; a
+        // payment's status information with card number, track 2, names; aborts and intermediate
+        // statuses with a TLV container behind them): what comes out is what the packet type decodes
+        {
+            let mut list: Vec<(SeqId, Cf, u8)> = vec![];
+            for id in ALL_SEQS {
+                for cf in seqs::info(id).alphabet() {
+                    for marker in [6u8, 14, 22, 30, 46, 62] {
+                        list.push((id, cf, marker));
+                    }
+                }
+            }
+            let n = list.len() as u64;
+            fams.push(Family::new("smallest_and_most_decorated_legal_forms", n, true, move |i, rng| {
+                let (id, cf, marker) = list[i as usize];
+                let mut p = plan_for(id, cf, 1, false, rng);
+                p.replies[0] = seqs::reply_frame(id, &Reply { cf, marker });
+                p
+            }));
+        }
+        // one read fails with a transient error (EINTR, EAGAIN, ETIMEDOUT) at every byte of a reply that is
+        // followed by a second reply and the final packet: the library carries on where it was, or the
+        // exchange fails there - it never hands out a packet pieced together from the wrong bytes
+        {
+            let mut list: Vec<(SeqId, Cf, u32)> = vec![];
+            for id in ALL_SEQS {
+                for cf in seqs::info(id).alphabet() {
+                    let f = seqs::reply_frame(id, &Reply { cf, marker: 3 });
+                    let ats: Vec<u32> = if f.len() <= 24 { (0..=f.len() as u32).collect() } else { vec![0, 1, 2, 3, 4, 5, 6, f.len() as u32 / 2, f.len() as u32 - 1, f.len() as u32] };
+                    for at in ats {
+                        list.push((id, cf, at));
+                    }
+                }
+            }
+            let n = list.len() as u64;
+            fams.push(Family::new("transient_read_error_at_every_byte_of_a_reply", n * 3, true, move |i, rng| {
+                let (id, cf, at) = list[(i / 3) as usize];
+                let mut p = plan_for(id, cf, 1, false, rng);
+                p.replies[0] = seqs::reply_frame(id, &Reply { cf, marker: 3 });
+                p.sched = if i % 2 == 0 { crate::conn::Sched::whole() } else { crate::conn::Sched::one_byte() };
+                // 3 = the acknowledgement in front
+                p.read_errs = vec![(3 + at, (i % 3) as u8)];
+                p.fault = "read_err".into();
+                p
+            }));
+        }
         match tier {
             Tier::Thorough => {
                 fams.push(Family::new(
